@@ -48,6 +48,13 @@ uint64_t plan_shape (const J &plan) ;
 uint64_t sub_seed (uint64_t seed, const char *profile, uint64_t idx) ;
 void add_owned (Verdict &v, const std::string &prop, const Result &r, const std::map<std::string, std::string> &owned) ;
 J plan_skeleton (const char *profile, uint64_t seed, uint64_t idx) ;
+// Fresh-process oracle: the plan executed in a process that has never run library code (forked from a zygote that was itself forked
+// before this process first called the library). Returns false when no zygote is available. hashes = transcript hash per task,
+// then the hash of every store in name order.
+bool fresh_execute (const J &plan, std::vector<uint64_t> &hashes) ;
+void result_hashes (const Result &r, std::vector<uint64_t> &hashes) ;
+void init_zygote () ;
+
 // initial-memory differential: the plan once more on different initial memory (fresh heap blocks / unused stack); results and file bytes must not change
 void memory_differential (Verdict &v, const char *prop, const J &plan, const Result &r0) ;
 
